@@ -355,21 +355,20 @@ Section Output.
     exists s. split; [reflexivity|eapply parse_ascii_strict_ok; eassumption].
   Qed.
 
-  Lemma parse_list_loop_out (pitem : pst -> pres item) :
-    (forall st x st', okst st -> pitem st = POk x st' -> okst st' /\ wf_out x = true) ->
-    forall n st acc x st', okst st -> forallb wf_out acc = true ->
-      parse_list_loop input pitem n st acc = POk x st' -> okst st' /\ wf_out x = true.
+  Lemma parse_list_loop_out (pitem : pst -> pres item) (Q : item -> Prop) :
+    (forall st x st', okst st -> pitem st = POk x st' -> okst st' /\ Q x) ->
+    forall n st acc x st', okst st -> Forall Q acc ->
+      parse_list_loop input pitem n st acc = POk x st' -> okst st' /\ exists cs, x = IList cs /\ Forall Q cs.
   Proof.
     intros HP. induction n as [|n IH]; intros st acc x st' H Hacc R; cbn [parse_list_loop] in R; [discriminate|].
     pose proof (peek_ns_ok st H) as H1. destruct (peek_ns input st) as [st1 ch]. cbn [fst] in H1.
     destruct (ch =? c_lt).
     - destruct (pitem st1) as [y st2| |] eqn:PI; try discriminate.
       destruct (HP _ _ _ H1 PI) as [H2 Wy].
-      eapply IH; [exact H2| |exact R]. cbn [forallb]. rewrite Wy, Hacc. reflexivity.
+      eapply IH; [exact H2| |exact R]. constructor; assumption.
     - destruct (ch =? c_gt); [|destruct (ch =? eof); discriminate].
       inversion R; subst. split; [apply forward_ok; exact H1|].
-      cbn [wf_out]. apply forallb_forall. intros y Hy. apply in_rev in Hy.
-      rewrite forallb_forall in Hacc. apply Hacc. exact Hy.
+      exists (rev acc). split; [reflexivity|apply Forall_rev; exact Hacc].
   Qed.
 
   Lemma int_token_in w t v : int_token w t = Some v -> int_in w v = true.
@@ -392,10 +391,23 @@ Section Output.
     destruct ((x <? 0) || (x >=? 256)) eqn:E; [discriminate|]. intros H; inversion H; subst. unfold byte_ok. lia.
   Qed.
 
-  Theorem parse_item_out : forall fuel st x st', okst st ->
-    parse_item fparse input fuel st = POk x st' -> okst st' /\ wf_out x = true.
+  (** an accepted item is well formed and, read at nesting [d] <= the cap, stays within the cap *)
+  Definition out_ok (d : Z) (x : item) : Prop :=
+    wf_out x = true /\ d + Z.of_nat (depth x) <= max_list_depth.
+
+  Lemma depth_list_bound d cs : d + 1 <= max_list_depth ->
+    Forall (fun c => d + 1 + Z.of_nat (depth c) <= max_list_depth) cs ->
+    d + Z.of_nat (depth (IList cs)) <= max_list_depth.
   Proof.
-    induction fuel as [|fuel IH]; intros st x st' H R; cbn [parse_item] in R; [discriminate|].
+    intros Hd F. cbn [depth]. rewrite Nat2Z.inj_succ.
+    assert (d + 1 + Z.of_nat (fold_right (fun c m => Nat.max (depth c) m) O cs) <= max_list_depth); [|lia].
+    induction F as [|c l Hc _ IH]; cbn [fold_right]; [lia|]. lia.
+  Qed.
+
+  Theorem parse_item_out : forall fuel d st x st', okst st -> d <= max_list_depth ->
+    parse_item fparse input fuel d st = POk x st' -> okst st' /\ out_ok d x.
+  Proof.
+    induction fuel as [|fuel IH]; intros d st x st' H Hd R; cbn [parse_item] in R; [discriminate|].
     pose proof (next_ns_ok st H) as H1. destruct (next_ns input st) as [st1 ch]. cbn [fst] in H1.
     destruct (negb (ch =? c_lt)); [discriminate|].
     destruct (parse_item_type input st1) as [[ty st2]|] eqn:PT; [|discriminate].
@@ -403,24 +415,30 @@ Section Output.
     destruct (parse_item_size input st2) as [[] st3| |] eqn:PS; try discriminate.
     pose proof (parse_item_size_okst _ _ H2 PS) as H3.
     pose proof (skip_comment_ok _ H3) as H4.
-    destruct (parse_body fparse input (parse_item fparse input fuel) ty (skip_comment input st3)) as [y st5| |] eqn:PB; try discriminate.
+    destruct (parse_body fparse input (parse_item fparse input fuel) ty d (skip_comment input st3)) as [y st5| |] eqn:PB; try discriminate.
     inversion R; subst.
-    assert (B : okst st5 /\ wf_out x = true).
-    { destruct ty; cbn [parse_body] in PB.
-      - exact (parse_list_loop_out _ IH _ _ [] _ _ H4 eq_refl PB).
-      - destruct (parse_ascii_out _ _ _ H4 PB) as [K (s & -> & Bs)]. split; assumption.
-      - destruct (parse_quoted_out _ _ _ _ _ _ H4 PB) as [K (s & -> & Bs)]. split; assumption.
-      - destruct (parse_quoted_out _ _ _ _ _ _ H4 PB) as [K (s & -> & Bs)]. split; assumption.
+    assert (B : okst st5 /\ out_ok d x).
+    { unfold out_ok. destruct ty; cbn [parse_body] in PB.
+      - destruct (d + 1 >? max_list_depth) eqn:E; [discriminate|].
+        destruct (parse_list_loop_out (parse_item fparse input fuel (d + 1)) (out_ok (d + 1))
+                    (fun st x st' Hs Hp => IH (d + 1) st x st' Hs ltac:(lia) Hp) _ _ [] _ _ H4 (Forall_nil _) PB)
+          as [K (cs & -> & F)].
+        split; [exact K|]. split.
+        + cbn [wf_out]. apply forallb_forall. intros c Hc. rewrite Forall_forall in F. apply F. exact Hc.
+        + apply depth_list_bound; [lia|]. eapply Forall_impl; [|exact F]. intros a [_ Ha]. exact Ha.
+      - destruct (parse_ascii_out _ _ _ H4 PB) as [K (s & -> & Bs)]. cbn [depth]. repeat split; try assumption; lia.
+      - destruct (parse_quoted_out _ _ _ _ _ _ H4 PB) as [K (s & -> & Bs)]. cbn [depth]. repeat split; try assumption; lia.
+      - destruct (parse_quoted_out _ _ _ _ _ _ H4 PB) as [K (s & -> & Bs)]. cbn [depth]. repeat split; try assumption; lia.
       - destruct (parse_values_out bool_token PE_Bool IBoolean (fun _ => true) _ _ _ ltac:(reflexivity) H4 PB) as [K (vs & -> & _)].
-        split; [exact K|reflexivity].
+        cbn [depth]. repeat split; try assumption; lia.
       - destruct (parse_values_out binary_token PE_Binary IBinary byte_ok _ _ _ binary_token_in H4 PB) as [K (vs & -> & F)].
-        split; [exact K|exact F].
+        cbn [depth]. repeat split; try assumption; lia.
       - destruct (parse_values_out (fparse w) PE_Float (IFloat w) (fdom w) _ _ _ (fparse_dom w) H4 PB) as [K (vs & -> & F)].
-        split; [exact K|exact F].
+        cbn [depth]. repeat split; try assumption; lia.
       - destruct (parse_values_out (int_token w) PE_Int (IInt w) (int_in w) _ _ _ (int_token_in w) H4 PB) as [K (vs & -> & F)].
-        split; [exact K|exact F].
+        cbn [depth]. repeat split; try assumption; lia.
       - destruct (parse_values_out (uint_token w) PE_Uint (IUint w) (uint_in w) _ _ _ (uint_token_in w) H4 PB) as [K (vs & -> & F)].
-        split; [exact K|exact F]. }
+        cbn [depth]. repeat split; try assumption; lia. }
     destruct B as [B1 B2]. split; [apply skip_comment_ok; exact B1|exact B2].
   Qed.
 
@@ -429,7 +447,8 @@ Section Output.
   Definition msg_out_ok (m : msg) : Prop :=
     0 <= m_stream m <= 127 /\ 0 <= m_function m <= 255 /\
     (m_wbit m && (m_function m mod 2 =? 0)) = false /\
-    item_size_ok (m_body m) = true /\ (m_body m = IEmpty \/ wf_out (m_body m) = true).
+    item_size_ok (m_body m) = true /\ (m_body m = IEmpty \/ wf_out (m_body m) = true) /\
+    Z.of_nat (depth (m_body m)) <= max_list_depth.
 
   Lemma parse_msg_out fuel st om st' : okst st -> parse_msg fparse input fuel st = POk om st' ->
     okst st' /\ match om with Some m => msg_out_ok m | None => True end.
@@ -441,12 +460,14 @@ Section Output.
     destruct (parse_header input st1) as [[[sv fv] wb] st2| |] eqn:PH; try discriminate.
     destruct (parse_header_out _ _ _ _ _ H1 PH) as (H2 & Rs & Rf).
     destruct (parse_text fparse input fuel st2) as [body st3| |] eqn:PT; try discriminate.
-    assert (B : okst st3 /\ (body = IEmpty \/ wf_out body = true)).
+    assert (B : okst st3 /\ (body = IEmpty \/ wf_out body = true) /\ Z.of_nat (depth body) <= max_list_depth).
     { unfold parse_text in PT. pose proof (peek_ns_ok _ (skip_comment_ok st2 H2)) as H3.
       destruct (peek_ns input (skip_comment input st2)) as [st4 ch4]. cbn [fst] in H3.
-      destruct (ch4 =? c_dot); [inversion PT; subst; split; [exact H3|left; reflexivity]|].
-      destruct (parse_item_out _ _ _ _ H3 PT) as [K W]. split; [exact K|right; exact W]. }
-    destruct B as [H3 Wb].
+      destruct (ch4 =? c_dot); [inversion PT; subst; split; [exact H3|split; [left; reflexivity|cbv; discriminate]]|].
+      assert (Z0 : 0 <= max_list_depth) by (cbv; discriminate).
+      destruct (parse_item_out fuel 0 st4 body st3 H3 Z0 PT) as [K [W Dp]].
+      split; [exact K|split; [right; exact W|lia]]. }
+    destruct B as [H3 [Wb Db]].
     pose proof (next_ns_ok st3 H3) as H4. destruct (next_ns input st3) as [st4 ch4]. cbn [fst] in H4.
     destruct (negb (ch4 =? c_dot)); [discriminate|].
     destruct (negb (item_size_ok body) || wb && (fv mod 2 =? 0)) eqn:E; [discriminate|].
